@@ -92,7 +92,68 @@ type Exec struct {
 	inlineN int
 	named    map[string]Val
 	callSeen map[string]bool
+	assertSeen map[string]bool
+	autoRange  map[*ssa.BasicBlock]*rangeInv
 }
+
+type rangeInv struct {
+	phi   *ssa.Phi
+	limit Term
+}
+
+func (ri *rangeInv) holds(idx Term) Term {
+	return and(app("bvsle", app("bvneg", bvLit(64, 1)), idx), app("bvslt", idx, ri.limit))
+}
+
+// rangeInvariant recognises the go/ssa shape of a range-over-slice loop:
+//   header: i = phi [-1, i+1] #rangeindex; n = i + 1; if n < L (L defined outside the loop)
+func (ex *Exec) rangeInvariant(h *ssa.BasicBlock) *rangeInv {
+	var phi *ssa.Phi
+	for _, in := range h.Instrs {
+		p, ok := in.(*ssa.Phi)
+		if !ok {
+			break
+		}
+		if p.Comment == "rangeindex" {
+			phi = p
+		}
+	}
+	if phi == nil {
+		return nil
+	}
+	iff, ok := h.Instrs[len(h.Instrs)-1].(*ssa.If)
+	if !ok {
+		return nil
+	}
+	cmp, ok := iff.Cond.(*ssa.BinOp)
+	if !ok || cmp.Op != token.LSS {
+		return nil
+	}
+	inc, ok := cmp.X.(*ssa.BinOp)
+	if !ok || inc.Op != token.ADD || inc.X != phi {
+		return nil
+	}
+	if k, ok := inc.Y.(*ssa.Const); !ok || k.Int64() != 1 {
+		return nil
+	}
+	li := ex.loops[h]
+	if in, ok := cmp.Y.(ssa.Instruction); ok && in.Block() != nil && li.body[in.Block()] {
+		return nil
+	}
+	lim, ok := ex.vals[cmp.Y]
+	if !ok {
+		if _, isC := cmp.Y.(*ssa.Const); !isC {
+			return nil
+		}
+		lim = ex.val(cmp.Y)
+	}
+	return &rangeInv{phi: phi, limit: lim.T}
+}
+
+var _ = token.ADD
+
+type unusedRange struct{}
+
 
 type loopInfo struct {
 	header *ssa.BasicBlock
@@ -459,6 +520,15 @@ func (ex *Exec) enterLoop(h *ssa.BasicBlock, li *loopInfo, preds []*ssa.BasicBlo
 			ex.addObl(fmt.Sprintf("loop%d/inv-init", li.index), lbl, ex.reach[h], t, li.pos, inv.Text, false)
 		}
 	}
+	// automatic invariant of `for i := range s` loops: -1 <= rangeindex < len
+	auto := ex.rangeInvariant(h)
+	if auto != nil {
+		v := ex.phiEdgeVal(auto.phi, h, preds[len(preds)-1])
+		for i := len(preds) - 2; i >= 0; i-- {
+			v = c.iteVal(conds[i], ex.phiEdgeVal(auto.phi, h, preds[i]), v)
+		}
+		ex.addObl(fmt.Sprintf("loop%d/range-init", li.index), "", ex.reach[h], auto.holds(v.T), li.pos, "-1 <= rangeindex < len (automatic)", false)
+	}
 	// 2. havoc: phis and every memory key written inside the loop
 	for _, in := range h.Instrs {
 		phi, ok := in.(*ssa.Phi)
@@ -470,6 +540,10 @@ func (ex *Exec) enterLoop(h *ssa.BasicBlock, li *loopInfo, preds []*ssa.BasicBlo
 		ex.vals[phi] = fv
 	}
 	ex.havocLoopMemory(li)
+	if auto != nil {
+		c.assume(imp(ex.reach[h], auto.holds(ex.vals[auto.phi].T)))
+		ex.autoRange[h] = auto
+	}
 	// 3. assume the invariant for an arbitrary iteration
 	env2 := ex.loopEnv(h, func(phi *ssa.Phi) Val { return ex.vals[phi] }, ex.cur)
 	if li.spec != nil {
@@ -524,6 +598,39 @@ func (ex *Exec) loopEnv(h *ssa.BasicBlock, phiVal func(*ssa.Phi) Val, mem *MemSt
 		}
 	}
 	return env
+}
+
+// bindDominating adds the named locals (allocs and phis with a source name)
+// and SSA names that dominate instruction `at`.
+func (ex *Exec) bindDominating(env *Env, at ssa.Instruction) {
+	if at == nil || at.Block() == nil {
+		return
+	}
+	blk := at.Block()
+	for val, x := range ex.vals {
+		in, ok := val.(ssa.Instruction)
+		if !ok || in.Block() == nil || in.Parent() != ex.fn {
+			continue
+		}
+		if !(in.Block() == blk || in.Block().Dominates(blk)) {
+			continue
+		}
+		name := ""
+		switch v := val.(type) {
+		case *ssa.Alloc:
+			name = v.Comment
+		case *ssa.Phi:
+			name = v.Comment
+		}
+		if name != "" && name != "complit" && name != "varargs" {
+			if _, clash := env.vars[name]; !clash {
+				env.vars[name] = x
+			}
+		}
+		if _, clash := env.vars[val.Name()]; !clash {
+			env.vars[val.Name()] = x
+		}
+	}
 }
 
 func (ex *Exec) baseEnv(mem *MemState) *Env {
@@ -726,6 +833,10 @@ func (ex *Exec) backEdge(from, h *ssa.BasicBlock) {
 	li := ex.loops[h]
 	cond := ex.edgeCond(from, h)
 	env := ex.loopEnv(h, func(phi *ssa.Phi) Val { return ex.phiEdgeVal(phi, h, from) }, ex.cur)
+	ex.bindDominating(env, from.Instrs[len(from.Instrs)-1])
+	if auto := ex.autoRange[h]; auto != nil {
+		ex.addObl(fmt.Sprintf("loop%d/range-preserve", li.index), "", cond, auto.holds(ex.phiEdgeVal(auto.phi, h, from).T), li.pos, "-1 <= rangeindex < len (automatic)", false)
+	}
 	if li.spec != nil {
 		for _, inv := range li.spec.Invariants {
 			t, err := env.Goal(inv.E)
